@@ -126,3 +126,11 @@ claim('C09',
       'combinatorial facts of the run-time maps (cover once, 1-3 neighbours, symmetric adjacency, total area) are NOT decided.',
       'Trusted: the abstract interpreter in dsa/rules/c09.py (raises an analysis error on any construct it does not model).',
       'DESIGN.md 4 C09')
+claim('C08',
+      'rank domain (np.where index arrays vs scalar element stores), list-length domain, exact polynomial identities in n_ring (D_poly)',
+      'Structural necessary conditions of C08 (DESIGN 4.8): no value indexed by np.where index arrays is stored into a single array element (constructibility of every bundle under the installed '
+      'NumPy), every fixed-length list indexed by a loop variable is at least as long as the loop range (constructibility with several bypass gaps), and the subchannel/pin count formulas satisfy '
+      'for every ring count the identities interior+edge+corner = 6(n^2-n+1), duct = 6n, bypass mirrors duct, pin count 3n(n-1)+1, pin-side incidence 6/5/5 = 3/2/1, and each pin class hands out '
+      'fractions summing to one. Symmetry of the run-time adjacency, area tiling and centroids are NOT decided.',
+      'Trusted: NumPy indexing semantics modelled in dsa/rules/c08.py; dsa/poly.py.',
+      'DESIGN.md 4 C08')
